@@ -175,11 +175,11 @@ def rules_stateless(prog):
                     if isinstance(arg, ast.Name) and arg.id in mutable and arg.id not in local_store:
                         problems.append('mutable default argument %s is handed to %s (line %d)'
                                         % (arg.id, ast.unparse(n.func)[:40], n.lineno))
-        out.append(ob('odml/validation.py::%s#stateless' % name,
+        out.append(dict(universal=True, **ob('odml/validation.py::%s#stateless' % name,
                       'keeps no state between calls (no global/nonlocal, no mutated or escaping mutable default, '
                       'no mutated module-level name)',
                       'proved' if not problems else
                       ('refuted' if any('is mutated' in x or x.startswith(('global', 'nonlocal')) for x in problems)
                        else 'undecided'),
-                      '; '.join(problems) or 'no state-carrying construct'))
+                      '; '.join(problems) or 'no state-carrying construct')))
     return out
